@@ -6,10 +6,12 @@ import (
 	"encoding/json"
 	"errors"
 	"fmt"
+	"io"
 	"math/rand"
 	"os"
 	"path/filepath"
 	"strings"
+	"testing/iotest"
 	"time"
 
 	theine "github.com/Yiling-J/theine-go"
@@ -121,6 +123,43 @@ type c12Mutant struct {
 	Off  int    `json:"offset"`
 	Arg  int    `json:"arg"`
 	Len  int    `json:"len,omitempty"`
+	// Rd: how the bytes reach LoadCache. 0 = bytes.Reader; 1 = one byte per Read; 2 = the bytes, then an error that
+	// is not io.EOF (a connection that broke); 3 = the last bytes arrive together with io.EOF (legal for an io.Reader)
+	Rd int `json:"reader,omitempty"`
+	// Via: the kind of cache whose public LoadCache receives the bytes ("" = plain)
+	Via string `json:"via,omitempty"`
+}
+
+var errC12Broken = errors.New("harness: the reader's source broke off")
+
+type c12TailReader struct {
+	data []byte
+	mode int
+}
+
+func (t *c12TailReader) Read(p []byte) (int, error) {
+	if len(t.data) == 0 {
+		if t.mode == 2 {
+			return 0, errC12Broken
+		}
+		return 0, io.EOF
+	}
+	n := copy(p, t.data)
+	t.data = t.data[n:]
+	if len(t.data) == 0 && t.mode == 3 {
+		return n, io.EOF
+	}
+	return n, nil
+}
+
+func c12Reader(data []byte, mode int) io.Reader {
+	switch mode {
+	case 1:
+		return iotest.OneByteReader(bytes.NewReader(data))
+	case 2, 3:
+		return &c12TailReader{data: data, mode: mode}
+	}
+	return bytes.NewReader(data)
 }
 
 func (m c12Mutant) apply(src []byte, msgs []gobMsg) []byte {
@@ -176,6 +215,7 @@ type c12Runner[V comparable] struct {
 	meta                               gobMsg // the message holding the metadata block (first value message)
 	lastF                              *os.File
 	accepted, rejected, reachedEntries int64
+	via                                string // kind of cache whose public LoadCache receives the mutants ("" = plain)
 }
 
 func c12Build[V comparable](maxsize int64) (*theine.Cache[int, V], error) {
@@ -255,7 +295,22 @@ func (rn *c12Runner[V]) done() {
 }
 
 // try loads one mutant and judges it.
-func (rn *c12Runner[V]) try(m c12Mutant) { rn.tryBytes(m, m.apply(rn.stream, rn.msgs)) }
+func (rn *c12Runner[V]) try(m c12Mutant) {
+	m.Via = rn.via
+	data := m.apply(rn.stream, rn.msgs)
+	rn.tryBytes(m, data)
+	// the same bytes through readers that behave differently at the end of what they have: every truncation once
+	// more (one byte per Read / a source that breaks off with an error of its own / last bytes together with
+	// io.EOF), one in eight of the other mutants through the one-byte reader
+	switch {
+	case m.Kind == "truncate":
+		m.Rd = 1 + m.Off%3
+		rn.tryBytes(m, data)
+	case (m.Off+m.Arg)%8 == 0:
+		m.Rd = 1
+		rn.tryBytes(m, data)
+	}
+}
 
 // tryBytes loads the given (damaged) bytes and judges the outcome.
 func (rn *c12Runner[V]) tryBytes(m c12Mutant, data []byte) {
@@ -265,12 +320,34 @@ func (rn *c12Runner[V]) tryBytes(m c12Mutant, data []byte) {
 		line := fmt.Sprintf("%-120s\n", fmt.Sprintf("shape=%s kind=%s off=%d arg=%d len=%d", rn.shape.Name, m.Kind, m.Off, m.Arg, m.Len))
 		_, _ = rn.lastF.WriteAt([]byte(line), 0)
 	}
-	c, err := c12Build[V](rn.shape.targetSize())
-	if err != nil {
-		r.Broken("build: %v", err)
-		return
+	var recvStore *internal.Store[int, V]
+	var load func(uint64, io.Reader) error
+	if m.Via == "" {
+		c, err := c12Build[V](rn.shape.targetSize())
+		if err != nil {
+			r.Broken("build: %v", err)
+			return
+		}
+		defer c.Close()
+		recvStore, load = c.VerifStore(), c.LoadCache
+	} else {
+		a, err := newAnyCache(m.Via, anyOpts{MaxSize: rn.shape.targetSize()})
+		if err != nil {
+			r.Broken("build: %v", err)
+			return
+		}
+		defer a.closeAPI()
+		st, ok := any(a.store()).(*internal.Store[int, V])
+		if !ok {
+			r.Broken("the kinds arm runs on int64 values only")
+			return
+		}
+		recvStore, load = st, a.load
+		r.Count("mutants_loaded_through_"+m.Via+"_cache", 1)
 	}
-	defer c.Close()
+	if m.Rd != 0 {
+		r.Count(fmt.Sprintf("mutants_read_through_reader_mode_%d", m.Rd), 1)
+	}
 	var lerr error
 	panicked := ""
 	func() {
@@ -279,11 +356,11 @@ func (rn *c12Runner[V]) tryBytes(m c12Mutant, data []byte) {
 				panicked = fmt.Sprint(p)
 			}
 		}()
-		lerr = c.LoadCache(rn.shape.LoadVer, bytes.NewReader(data))
+		lerr = load(rn.shape.LoadVer, c12Reader(data, m.Rd))
 	}()
 	r.Eval(1)
 	wit := func() map[string]any {
-		w := map[string]any{"shape": rn.shape, "mutant": m, "stream_len": len(rn.stream), "error": fmt.Sprint(lerr), "messages": len(rn.msgs)}
+		w := map[string]any{"shape": rn.shape, "mutant": m, "value_type": fmt.Sprintf("%T", *new(V)), "stream_len": len(rn.stream), "error": fmt.Sprint(lerr), "messages": len(rn.msgs)}
 		if len(data) <= 1<<16 {
 			// the exact damaged bytes and the entries of the saved cache: `--replay` loads precisely these
 			w["damaged_stream_b64"] = base64.StdEncoding.EncodeToString(data)
@@ -303,6 +380,10 @@ func (rn *c12Runner[V]) tryBytes(m c12Mutant, data []byte) {
 		return
 	}
 	identical := bytes.Equal(data, rn.stream)
+	viaSfx := ""
+	if m.Via != "" {
+		viaSfx = "/through-the-" + m.Via + "-cache"
+	}
 	versionsDiffer := rn.shape.SavedVer != rn.shape.LoadVer
 	if lerr != nil {
 		rn.rejected++
@@ -313,12 +394,12 @@ func (rn *c12Runner[V]) tryBytes(m c12Mutant, data []byte) {
 		rn.accepted++
 		r.DistinctHash(hashStr(fmt.Sprintf("accepted/%s/%s/%s", rn.shape.Name, m.Kind, where)))
 		if m.Kind == "truncate" && !identical {
-			r.Violate("truncated-stream-accepted", fmt.Sprintf("a %d-byte prefix of a %d-byte %s stream was loaded without error", m.Off, len(rn.stream), rn.shape.Name), wit())
+			r.Violate("truncated-stream-accepted"+viaSfx, fmt.Sprintf("a %d-byte prefix of a %d-byte %s stream was loaded without error", m.Off, len(rn.stream), rn.shape.Name), wit())
 		}
 	}
 	// whatever the error: what is in the cache now?
-	sn := c.VerifStore().VerifSnapshot()
-	start := c.VerifStore().VerifClockStartNano()
+	sn := recvStore.VerifSnapshot()
+	start := recvStore.VerifClockStartNano()
 	if len(sn.Map) > 0 {
 		rn.reachedEntries++
 		if lerr != nil {
@@ -540,12 +621,13 @@ func c12Replay(r *Run) bool {
 	}
 	var doc struct {
 		Witness struct {
-			Shape    c12Shape  `json:"shape"`
-			Mutant   c12Mutant `json:"mutant"`
-			Damaged  string    `json:"damaged_stream_b64"`
-			Original string    `json:"original_stream_b64"`
-			MetaEnd  int       `json:"metadata_message_end"`
-			Saved    []struct {
+			Shape     c12Shape  `json:"shape"`
+			Mutant    c12Mutant `json:"mutant"`
+			Damaged   string    `json:"damaged_stream_b64"`
+			Original  string    `json:"original_stream_b64"`
+			MetaEnd   int       `json:"metadata_message_end"`
+			ValueType string    `json:"value_type"`
+			Saved     []struct {
 				Key      int    `json:"key"`
 				Value    string `json:"value"`
 				Cost     int64  `json:"cost"`
@@ -561,12 +643,30 @@ func c12Replay(r *Run) bool {
 	if err1 != nil || err2 != nil {
 		return false
 	}
-	rn := &c12Runner[int]{r: r, shape: doc.Witness.Shape, stream: orig, saved: map[int]c12Saved[int]{}}
-	for _, sv := range doc.Witness.Saved {
-		var v int
-		fmt.Sscan(sv.Value, &v)
-		rn.saved[sv.Key] = c12Saved[int]{val: v, cost: sv.Cost, deadline: sv.Deadline}
+	if doc.Witness.ValueType == "int64" {
+		c12ReplayT[int64](r, doc.Witness.Shape, doc.Witness.Mutant, orig, data, func(sv string) int64 { var v int64; fmt.Sscan(sv, &v); return v }, func(f func(int, string, int64, int64)) {
+			for _, sv := range doc.Witness.Saved {
+				f(sv.Key, sv.Value, sv.Cost, sv.Deadline)
+			}
+		})
+	} else {
+		c12ReplayT[int](r, doc.Witness.Shape, doc.Witness.Mutant, orig, data, func(sv string) int { var v int; fmt.Sscan(sv, &v); return v }, func(f func(int, string, int64, int64)) {
+			for _, sv := range doc.Witness.Saved {
+				f(sv.Key, sv.Value, sv.Cost, sv.Deadline)
+			}
+		})
 	}
+	r.Distinct("replay/a")
+	r.Distinct("replay/b")
+	r.Sample(2, map[string]any{"replayed_mutant": doc.Witness.Mutant, "bytes": len(data)})
+	return true
+}
+
+func c12ReplayT[V comparable](r *Run, shape c12Shape, m c12Mutant, orig, data []byte, parse func(string) V, each func(func(int, string, int64, int64))) {
+	rn := &c12Runner[V]{r: r, shape: shape, stream: orig, saved: map[int]c12Saved[V]{}, via: m.Via}
+	each(func(k int, v string, cost, deadline int64) {
+		rn.saved[k] = c12Saved[V]{val: parse(v), cost: cost, deadline: deadline}
+	})
 	rn.msgs = gobMessages(orig)
 	for _, m := range rn.msgs {
 		if !m.TypeDef {
@@ -574,12 +674,8 @@ func c12Replay(r *Run) bool {
 			break
 		}
 	}
-	r.Rule("replay of one recorded damaged stream (exact bytes) against the saved entries recorded with it")
-	rn.tryBytes(doc.Witness.Mutant, data)
-	r.Distinct("replay/a")
-	r.Distinct("replay/b")
-	r.Sample(2, map[string]any{"replayed_mutant": doc.Witness.Mutant, "bytes": len(data)})
-	return true
+	r.Rule("replay of one recorded damaged stream (exact bytes, same reader behaviour, same kind of receiving cache) against the saved entries recorded with it")
+	rn.tryBytes(m, data)
 }
 
 func runC12(r *Run) {
@@ -621,6 +717,26 @@ func runC12(r *Run) {
 			rn.enumerate(true, 0)
 		}
 		rn.done()
+	}
+	// the same enumeration through the public LoadCache of the other cache kinds (the decoder is shared, the
+	// wrappers around it are not): int64 values, three shapes per kind
+	for ki, kind := range []string{"loading", "hybrid", "hybrid-loading"} {
+		for si, sh := range []c12Shape{
+			{Name: "ten-ttl-uptime1h", Entries: 10, TTL: true, UptimeS: 3600},
+			{Name: "version-mismatch-ttl", Entries: 6, TTL: true, SavedVer: 4, LoadVer: 5},
+			{Name: "full-cache-into-a-third", Entries: 12, TTL: true, Full: true, TargetSize: 4},
+		} {
+			sh.Name += "/" + kind
+			rn, err := newC12Runner[int64](r, sh, func(i int) int64 { return int64(i)*11 + 3 }, func(i int) int64 { return int64(1 + i%3) })
+			if err != nil {
+				r.Broken("save %s: %v", sh.Name, err)
+				return
+			}
+			rn.via = kind
+			_, _ = ki, si
+			rn.enumerate(len(rn.stream) <= 4096, 2000)
+			rn.done()
+		}
 	}
 	// multi-block: values of 1 MiB so that 10 entries span >= 3 blocks of 4 MiB
 	big := c12Shape{Name: "multi-block-ttl-uptime1h", Entries: 10, TTL: true, UptimeS: 3600, Big: true}
